@@ -37,6 +37,9 @@ BOUNDED = ["fixed", "var", "randvar", "split", "random", "dbsplit", "periodic", 
 
 
 def bound_violation(ctx, spec, run, label):
+    if run.query_exc:
+        ctx.violate(f"C04/{spec['kind']}/query-raises", f"{spec['kind']}: query raised {run.query_exc[0]}", dict(spec=spec, oracle="bound"))
+        return True
     if run.update_exc:
         ctx.violate(
             f"C10/{spec['kind']}.update/raises-on-query-result",
@@ -117,21 +120,66 @@ def adversarial(ctx, kind, rng, n, lines=None, expect=None):
         one_case(ctx, lines, expect, spec, label="adversarial")
 
 
+def compositions(n):
+    if n == 0:
+        yield []
+        return
+    for first in range(1, n + 1):
+        for rest in compositions(n - first):
+            yield [first] + rest
+
+
+def exhaustive_small_scope(ctx, lines, expect):
+    """all utility streams over {NaN, 0, 1} up to length 4 x all chunkings x boundary parameters, for the
+    deterministic managers and periodic sampling (model vs code + bound + chunk invariance)"""
+    import itertools
+
+    cnt = 0
+    for kind, plist in (
+        ("fixed", [dict(w=1, b=1.0, nc=2), dict(w=2, b=0.5, nc=2), dict(w=4, b=0.25, nc=2)]),
+        ("var", [dict(w=1, b=1.0, theta=1.0, s=0.5), dict(w=2, b=0.5, theta=1.0, s=0.5), dict(w=4, b=0.25, theta=0.5, s=0.25)]),
+    ):
+        for p in plist:
+            for n in range(1, 5):
+                for us in itertools.product(["nan", 0.0, 1.0], repeat=n):
+                    base = None
+                    for ch in compositions(n):
+                        spec = dict(kind=kind, params=p, seed=1, chunks=ch, utils=list(us), style="exhaustive")
+                        run = one_case(ctx, lines, expect, spec, label="exhaustive")
+                        sig = (run.grants, run.states[-1])
+                        if base is None:
+                            base = sig
+                        elif sig != base:
+                            ctx.violate(f"C10/{kind}/chunking-dependent", f"{kind}: chunking {ch} of {us} differs from one chunk",
+                                        dict(spec=spec, oracle="chunk-invariance", chunks_a=[n], chunks_b=ch))
+                        cnt += 1
+    for b in (1.0, 0.5, 0.25, 0.375):
+        for n in range(1, 9):
+            for ch in compositions(n):
+                one_case(ctx, lines, expect, dict(kind="periodic", params=dict(w=1, b=b), seed=1, chunks=ch), label="exhaustive")
+                cnt += 1
+    ctx.notes["exhaustive_subrun"] = (f"{cnt} cases: fixed / variable managers on all utility streams over {{NaN,0,1}}^n, n<=4, x all chunkings x 3 "
+                                      "boundary parameter sets; periodic sampling on all chunkings of streams up to length 8 x 4 budgets")
+    ctx.exhaustive = False  # the random part is not exhaustive; the sub-run above is
+
+
 def correspond(ctx):
     rng = ctx.rng
     lines, expect = [], []
     kinds = S.MANAGER_KINDS + S.BASELINE_KINDS
-    per_kind = 40 if not ctx.thorough else 400
+    per_kind = 100 if not ctx.thorough else 600
     for kind in kinds:
         for t in range(per_kind):
             spec = S.gen_case(rng, kind, boundary=(t % 3 == 0), n=rng.randint(1, 60 if t % 5 else 150))
             one_case(ctx, lines, expect, spec)
-        for t in range(6 if not ctx.thorough else 40):
+        for t in range(10 if not ctx.thorough else 60):
             spec = S.gen_case(rng, kind, boundary=(t % 2 == 0), n=rng.randint(4, 40))
             rechunk(ctx, lines, expect, spec, rng)
         if kind in BOUNDED:
             for t in range(4 if not ctx.thorough else 30):
                 adversarial(ctx, kind, rng, rng.randint(20, 120), lines, expect)
+    if ctx.thorough:
+        exhaustive_small_scope(ctx, lines, expect)
     outs = vlib.run_driver(lines)
     for line, out, (impl, spec) in zip(lines, outs, expect):
         if out.split() != impl.split():
